@@ -1123,6 +1123,17 @@ def ctor_model(self, e, st, spec):
     name = ast.unparse(e.func)
     if spec:
         return NotImplemented
+    if name == "next" and len(e.args) == 1 and isinstance(e.args[0], ast.Call) and ast.unparse(e.args[0].func) in ("iter", "reversed"):
+        # next(iter(S)) / next(reversed(S)) of a sorted set: its smallest / largest element (StopIteration if empty)
+        recv = deopt(self, self.ev(e.args[0].args[0], st, spec), st, spec, e)
+        s_ = set_of(self, st, recv)
+        if s_ is None:
+            return NotImplemented
+        self.used_models.add(TRUSTED_SC)
+        st.assume(*wf_set(s_["mem"], s_["n"], s_["seq"], s_["idx"]))
+        self.oblige(st, s_["n"] > 0, f"no-StopIteration@{e.lineno}:{e.col_offset}", "exception-freedom", e.lineno, ast.unparse(e))
+        i = z3.IntVal(0) if ast.unparse(e.args[0].func) == "iter" else s_["n"] - 1
+        return wrap(s_["seq"][i])
     if name.startswith("logging.") or name == "print":
         for a in e.args:
             if not isinstance(a, (ast.JoinedStr, ast.Constant)):
